@@ -2,7 +2,7 @@
    ParseInt(s,0,0), ParseUint(s,0,0), Atoi, ParseBool and the two integer
    recognisers of assign_builtin.go yield. *)
 From Coq Require Import List Arith Bool Ascii String ZArith NArith.
-From Verif Require Import Util Ints Strconv.
+From Verif Require Import Util Ints Strconv Spellings.
 Import ListNotations.
 Local Open Scope string_scope.
 
@@ -27,6 +27,15 @@ Definition fixed : list string :=
    "0777"; "0o"; "0b"; "0x_"; "a"; "z"; "nil"; "true"; "True"; "TRUE"; "t"; "T"; "tRUE"; "false"; "False"; "FALSE"; "f"; "F";
    "+0"; "-0"; "0x7fffffffffffffff"; "-0x8000000000000000"; "-0x8000000000000001"; "1_2_3"; "0_0"; "0__0"; "0x1_"; "12a"; "٣"].
 
+(* every base-0 spelling (Gen/Spellings.v) of small numbers, of numbers with 17..20 digits
+   and of the 64-bit bounds: leading zeros, prefixes, underscores, signs, padding *)
+Definition spelled_numbers (full : bool) : list Z :=
+  [0; 7; 8; 15; 19; -19; e18 - 1; - e18; e19 - 1; e19; 9223372036854775807; -9223372036854775808; 18446744073709551615]%Z ++
+  (if full then [1; -1; 9; 10; 63; 64; 100; -100; 255; 511; 512; e18 / 10 - 1; e18 / 10; e18; 1 - e18; 9223372036854775808;
+                 -9223372036854775809; 18446744073709551616; - e19]%Z else []).
+Definition spelled (full : bool) : list (string * string) :=
+  dedup_sp [] (flat_map (fun z => map (fun p : spelling => ("spelling,sp=" ++ fst p, snd p)) (spellings full z)) (spelled_numbers full)).
+
 Definition alphabet : string := "0123456789+-_xXbBoOaAfF. e".
 
 Fixpoint rnd_string (len : nat) (s : rng) : string * rng :=
@@ -50,4 +59,6 @@ Fixpoint number {A} (i : nat) (l : list A) : list (nat * A) :=
 
 Definition cases (tier : Z) (seed : Z) : list string :=
   map (fun p : nat * string => case_line ("f" ++ nat_to_string (fst p)) "fixed" (snd p)) (number 0 fixed) ++
+  map (fun p : nat * (string * string) => case_line ("s" ++ nat_to_string (fst p)) (fst (snd p)) (snd (snd p)))
+      (number 0 (spelled (negb (Z.eqb tier 0)))) ++
   rnd_cases (if Z.eqb tier 0 then 3000 else 30000) (rng_of_seed seed) 0.
